@@ -33,6 +33,9 @@ BoolPreds == {
     NBoolOp("or", NCmpOp("=", PA(<<B>>), NNum(IntV(1))), NCmpOp("=", PA(<<B>>), NNum(IntV(2)))),
     NBoolOp("and", NCmpOp("!=", CtxVar, NStr(kx)), NCmpOp("!=", CtxVar, NNum(IntV(2)))),
     NBool(TRUE), NBool(FALSE), NNull,
+    \* the context item itself and a path that starts at it; objects whose members are all falsy (a non-empty object is true)
+    CtxVar, PA(<<CtxVar, B>>), PA(<<CtxVar>>), NObject(<< <<NStr(ka), NNum(IntV(0))>> >>), NObject(<< <<NStr(ka), NStr(<<>>)>>, <<NStr(kb), NBool(FALSE)>> >>),
+    NObject(<< <<NStr(ka), PA(<<B>>)>> >>), NArray(<<NBool(FALSE), NStr(kx)>>), NArray(<<NStr(kx), NBool(FALSE)>>), NArray(<<NBool(FALSE), NStr(<<>>)>>),
     \* computed numbers
     NNumOp("-", NNum(IntV(1)), NNum(IntV(2))), NCall(NVar("count"), <<CtxVar>>),
     NNumOp("-", CtxVar, NNum(IntV(1))), NNumOp("/", CtxVar, NNum(IntV(10))),
